@@ -92,7 +92,7 @@ def design(chk: Check) -> None:
     files = {"MC_SharedCore.tla": mc_module()}
     todo = [f"Served_{d}" for d in DESIGN_DEPTHS] + [f"NeverShrinksNeeded_{d}" for d in DESIGN_DEPTHS]
     while True:
-        r = run_tlc(chk.scratch, "MC_SharedCore", mc_cfg(todo), files=files, workers=4, coverage=True, allow_violation=True)
+        r = run_tlc(chk.scratch, "MC_SharedCore", mc_cfg(todo), files=files, workers=1, coverage=True, allow_violation=True)
         chk.add_tlc(f"MC_SharedCore[{len(todo)} C11 formulas + mechanism invariants]", r)
         if not r.violated:
             break
@@ -381,9 +381,12 @@ def replay_and_judge(chk: Check, fams: list[tuple[dict, list[dict]]], spawn_ever
     chk.require(nother > 0, "no step was taken with another client present (family does not exercise sharing)")
     chk.require(nreg > 0 or label == "replay", "the registry was never observed (family does not exercise the mechanism)")
     # samples
-    some = [m for m in meta.values() if len(m["hist"]) >= 2][:1]
+    some = []
+    for d in (1, 3):
+        some += [m for m in meta.values() if m["depth"] == d and len(m["hist"]) >= 2 and len({s[0] for s in m["hist"]}) >= 2 and m["ob"]["applied"]][:1]
     for m in some:
-        chk.sample({"kind": "replayed step", "depth": m["depth"], "layout": m["layout"], "hist": m["hist"], "spec_state": m["spec_state"], "observed": {k: m["ob"][k] for k in ("regfile", "registry", "aliases")}})
+        chk.sample({"kind": "replayed step", "depth": m["depth"], "layout": m["layout"], "hist": m["hist"], "spec_state": m["spec_state"], "observed": {k: m["ob"][k] for k in ("regfile", "registry", "aliases")},
+                    "probes": [{k: p[k] for k in ("client", "pkg", "imports", "missing", "needs")} for p in m["ob"]["probes"]]}, cap=10)
 
 
 def run(chk: Check) -> None:
